@@ -28,14 +28,20 @@ def reg(c):
 class Frame:
     """A numpy array that came out of the reader, tagged with the index (fid) of the file frame it belongs to."""
 
-    def __init__(self, fid, what="posvel"):
-        self.fid, self.what = fid, what
+    def __init__(self, fid, what="posvel", sign=1):
+        self.fid, self.what, self.sign = fid, what, sign  # sign: -1 after an explicit `* -1` in the driver
 
     def pyvc_subscript(self, idx, st, ex, node):
-        return Frame(self.fid, self.what + "[..]")
+        return Frame(self.fid, self.what + "[..]", self.sign)
 
     def pyvc_slice(self, lo, hi, step, st, ex):
-        return Frame(self.fid, self.what + "[:]")
+        return Frame(self.fid, self.what + "[:]", self.sign)
+
+    def pyvc_binop(self, op, other, st, ex, node, reflected):
+        import ast as _ast
+        if isinstance(op, _ast.Mult) and other in (-1, -1.0, 1, 1.0):
+            return Frame(self.fid, self.what, self.sign * int(other))
+        raise Unsupported(f"arithmetic on a reader frame: {type(op).__name__} {other!r}")
 
 
 def _frame_list(st, name, first_fid, n):
